@@ -99,6 +99,46 @@ func main() {
 	}
 }
 
+// recordInstances merges the violating instances of this run into
+// known_instances/<id>.txt. Development aid (VERIF_RECORD_INSTANCES=1): the
+// file is reviewed and committed by hand and never written by a normal run.
+func recordInstances(id string, inst map[string]string) {
+	all := map[string]string{}
+	for k, v := range checks.LoadInstances(id) {
+		all[k] = v
+	}
+	for k, v := range inst {
+		all[k] = v
+	}
+	coreIdx := map[string]int{}
+	var cores []string
+	for _, c := range all {
+		if _, ok := coreIdx[c]; !ok {
+			coreIdx[c] = 0
+			cores = append(cores, c)
+		}
+	}
+	sort.Strings(cores)
+	for i, c := range cores {
+		coreIdx[c] = i
+	}
+	var keys []string
+	for k := range all {
+		keys = append(keys, k)
+	}
+	sort.Strings(keys)
+	var sb strings.Builder
+	for i, c := range cores {
+		fmt.Fprintf(&sb, "#%d %s\n", i, c)
+	}
+	for _, k := range keys {
+		fmt.Fprintf(&sb, "%s %d\n", k, coreIdx[all[k]])
+	}
+	_ = os.MkdirAll(filepath.Join(verifDir, "known_instances"), 0o755)
+	_ = os.WriteFile(filepath.Join(verifDir, "known_instances", id+".txt"), []byte(sb.String()), 0o644)
+	fmt.Printf("recorded %d instances (%d cores) for %s\n", len(all), len(cores), id)
+}
+
 func usage() {
 	fmt.Fprintln(os.Stderr, "usage: vcheck run <ID> <quick|thorough> | replay <file>")
 	os.Exit(2)
@@ -326,6 +366,13 @@ func run(id, tier string) int {
 			if known.Findings[i].Property == id && known.Findings[i].Core == f.Core {
 				fin.known = &known.Findings[i]
 			}
+			// a history that is not in the instance baseline, does not recur on every
+			// re-execution and minimises to a listed core: the listed finding, seen
+			// through Go's map iteration order
+			if f.NewInstance && f.Flaky && known.Findings[i].Property == id && known.Findings[i].Core == f.BaseCore {
+				fin.known = &known.Findings[i]
+				merged.Notes = append(merged.Notes, "flaky instance of a listed core: "+f.BaseCore+" <- "+f.Original)
+			}
 		}
 		if fin.known == nil {
 			fin.path = writeReplay(&f)
@@ -333,6 +380,9 @@ func run(id, tier string) int {
 		finals = append(finals, fin)
 	}
 
+	if os.Getenv("VERIF_RECORD_INSTANCES") != "" {
+		recordInstances(id, merged.Instances)
+	}
 	violations := 0
 	for _, fin := range finals {
 		if fin.known != nil {
